@@ -158,16 +158,19 @@ def _header_ok(path, key, cfg):
 
 
 def _prune_cache(keep):
-    """Keep the cache small: drop entries other than `keep` older than a day, and never more than 6 trees."""
+    """Keep the cache small without ever touching a tree that another (parallel) run may be using:
+    only entries untouched for more than 3 hours are removed, oldest first, beyond 40 entries all older than 30 min."""
     try:
         ents = []
+        now = time.time()
         for e in os.listdir(CACHE):
             p = os.path.join(CACHE, e)
             if os.path.isdir(p) and e != keep:
                 ents.append((os.path.getmtime(p), p))
         ents.sort(reverse=True)
         for k, (mt, p) in enumerate(ents):
-            if k >= 5 or time.time() - mt > 86400:
+            age = now - mt
+            if age > 3 * 3600 or (k >= 40 and age > 1800):
                 shutil.rmtree(p, ignore_errors=True)
     except Exception:
         pass
